@@ -72,12 +72,17 @@ def strip_ids(n):
     return n
 
 
+_PTR = re.compile(r"^0x[0-9a-f]+$")
+
+
 def _strip_ref(n):
     if isinstance(n, dict):
         r = {}
         for k, v in n.items():
             if k in ("id", "loc", "range", "previousDecl", "mangledName"):
                 continue
+            if isinstance(v, str) and _PTR.match(v):
+                continue        # referencedMemberDecl, typeAliasDeclId, ...: addresses inside clang, different on every run
             if k == "referencedDecl":
                 r[k] = {"name": v.get("name"), "kind": v.get("kind")}
             else:
